@@ -698,7 +698,8 @@ func collectFacts(dir string) (*factSet, error) {
 		"Program.Println", "Program.Printf", "newRenderer", "standardRenderer.write", "standardRenderer.repaint",
 		"Program.readLoop", "Program.waitForReadLoop", "Program.checkResize", "Program.listenForResize", "channelHandlers.shutdown",
 		"WithFilter", "WithFPS", "detectReportFocus", "Program.handleSignals", "Program.handleCommands", "Program.handleResize",
-		"Program.initCancelReader", "standardRenderer.listen", "standardRenderer.start", "standardRenderer.handleMessages")
+		"Program.initCancelReader", "standardRenderer.listen", "standardRenderer.start", "standardRenderer.handleMessages",
+		"Program.initInput", "Program.restoreInput", "Program.suspend", "standardRenderer.halt")
 	fs.signature("Program.Run")
 	fs.bufSize()
 	fs.lockDiscipline()
